@@ -2,13 +2,16 @@
 """usage: tools/adopt_mutant.py <ID> <mK> "<caught by / notes>"  -- copies a confirmed seeded change into seeded/<ID>-<mK>/"""
 import json, os, shutil, sys
 pid, mk, notes = sys.argv[1], sys.argv[2], sys.argv[3]
-src = f'/tmp/wt/{pid}/MUTANTS/{mk}'
-dst = os.path.join(os.path.dirname(os.path.dirname(os.path.abspath(__file__))), 'seeded', f'{pid}-{mk}')
+base = sys.argv[4] if len(sys.argv) > 4 else '/tmp/wt'          # round 2 lives under /tmp/wt2 and is stored as <ID>-r2-<mK>
+tag = '' if base == '/tmp/wt' else 'r2-'
+src = f'{base}/{pid}/MUTANTS/{mk}'
+dst = os.path.join(os.path.dirname(os.path.dirname(os.path.abspath(__file__))), 'seeded', f'{pid}-{tag}{mk}')
 os.makedirs(dst, exist_ok=True)
 shutil.copy(os.path.join(src, 'patch.diff'), dst)
 shutil.copy(os.path.join(src, 'demo.py'), dst)
 meta = json.load(open(os.path.join(src, 'meta.json')))
-res = open(f'/tmp/evalres/{pid}_{mk}.txt').read() if os.path.exists(f'/tmp/evalres/{pid}_{mk}.txt') else ''
+rf = f'/tmp/evalres/{tag}{pid}_{mk}.txt'
+res = open(rf).read() if os.path.exists(rf) else ''
 meta_out = {
     'property': pid,
     'breaks': meta.get('summary'),
